@@ -173,14 +173,20 @@ func (a *actor) run() {
 	x := a.x
 	var in *instance
 	if a.spec.create {
-		a.restarts++
-		c := x.w.newInstance(a.name+"-create", a.restarts, nil, false)
-		a.cur = c
-		err := CreateLog(c.ctx, c.cfg)
-		x.logf("%s: CreateLog: %v", a.name, err)
-		c.crash()
-		if err != nil {
-			// creation refused or failed: this process exits
+		// As cmd/sunlight does on the inception date: every start calls CreateLog
+		// first; "log exists" is fine, any other error ends the process, which is
+		// then started again (a bounded number of times).
+		created := false
+		for attempt := 0; attempt < 3 && !created; attempt++ {
+			a.restarts++
+			c := x.w.newInstance(a.name+"-create", a.restarts, nil, false)
+			a.cur = c
+			err := CreateLog(c.ctx, c.cfg)
+			x.logf("%s: CreateLog: %v", a.name, err)
+			c.crash()
+			created = err == nil || err == ErrLogExists
+		}
+		if !created {
 			return
 		}
 	}
